@@ -20,6 +20,7 @@ import shutil
 import subprocess
 import tempfile
 
+import gen_erracct
 import vlib
 from gens import fuzz as F
 
@@ -74,6 +75,7 @@ def case_from_json(j):
     return c
 
 
+HANG_INPUT = b"RATES\n R1\n -start\n 10 SAVE 2\n -end\nSOLUTION 1\n Na 1\n Cl 1\nKINETICS 1\n R1\n -formula NaCl 1\n -m0 1\n -steps 10\nEND\n"
 WARN_PRE = b"SOLUTION 1\n pH 7\n Na 1\n Xx 1\nEND\n"       # succeeds (return 0) with a two-line warning
 
 
@@ -171,6 +173,13 @@ def corpus_cases():
     add("str-1e300", "SOLUTION 1\nSELECTED_OUTPUT\nUSER_PUNCH\n10 PUNCH STR$(1e300)\nEND\n")
     add("mid-beyond-end", "SOLUTION 1\nSELECTED_OUTPUT\nUSER_PUNCH\n10 PUNCH MID$(\"abc\", 5)\nEND\n")
     add("unnumbered-read", "SOLUTION 1\nUSER_PRINT\nREAD x\nEND\n")
+    add("modify-same-simulation", "SOLUTION 5\n pH 7\n Ca 1\nSOLUTION_MODIFY 5\n -totals\n  Na 0.001\nEND\n")
+    add("gas-unknown-then-components", "SOLUTION 1\nGAS_PHASE 1\n -fixed_pressure\n Nosuchgas(g) 0.1\nEND\n")
+    add("long-token-inverse", "INVERSE_MODELING\n-phases\n" + "1" * 400 + "\n")
+    add("long-formula-gfw", "SOLUTION\nAlkalinity 141.682 as " + "x" * 400 + "\nEND\n")
+    add("advection-negative-cells", "ADVECTION\n-cells -5\n")
+    add("raw-huge-number", "EXCHANGE_RAW 99999999999\n")
+    C.append(mk_case("corpus", "kinetics-constant-rate", [("run", HANG_INPUT)], sw=[("errstr", 1)], timeout=5))
     C.append(mk_case("corpus", "load-missing-after-warning", [("loaddb", b"/nonexistent_dir_c08/x.dat")], sw=[("errstr", 1)], pre=[("run", WARN_PRE)]))
     C.append(mk_case("corpus", "load-missing-fresh", [("loaddb", b"/nonexistent_dir_c08/x.dat")], sw=[("errstr", 1)]))
     C.append(mk_case("corpus", "runfile-missing", [("runfile", b"nosuch_c08.pqi")], sw=[("errstr", 1)], pre=[("run", WARN_PRE)]))
@@ -383,6 +392,9 @@ def lines_of(bts):
     return parts
 
 
+LOAD_REFRESHES = [True]      # Gen.ErrAcct.loadRefreshesLines of the current source (set by run/replay from the translator)
+
+
 def analyse(ctx, exe, c, rec):
     """→ dict(status=judged|notjudged:<why>, issues=[(cls, key, text)], stats)   cls in a b c d model"""
     if rec is None or rec["end"] is None:
@@ -500,11 +512,11 @@ def analyse(ctx, exe, c, rec):
         el = v["errlines"][1:]
         wl = v["warnlines"][1:]
         if on and int(v["errlines"][0]) <= 3000 and [unhx(x) for x in el] != lines_of(unhx(errstr)):
-            key = "failed-load-stale-lines" if mode == "load-failed" else "error-lines-ne-string"
+            key = "failed-load-stale-lines" if mode == "load-failed" and not LOAD_REFRESHES[0] else "error-lines-ne-string"
             issues.append(("c", key, f"{o['kind']}: GetErrorStringLine* ({len(el)} lines: {[txt(unhx(x), 60) for x in el[:2]]}) do not describe this call's error string "
                                      f"({len(lines_of(unhx(errstr)))} lines: {[txt(x, 60) for x in lines_of(unhx(errstr))[:2]]})"))
         if int(v["warnlines"][0]) <= 3000 and [unhx(x) for x in wl] != lines_of(unhx(warnstr)):
-            key = "failed-load-stale-lines" if mode == "load-failed" else "warning-lines-ne-string"
+            key = "failed-load-stale-lines" if mode == "load-failed" and not LOAD_REFRESHES[0] else "warning-lines-ne-string"
             issues.append(("c", key, f"{o['kind']}: GetWarningStringLine* ({len(wl)} lines: {[txt(unhx(x), 60) for x in wl[:2]]}) do not describe this call's warning string "
                                      f"({len(lines_of(unhx(warnstr)))} lines)"))
     # ---- reload + probe (C07 oracle)
@@ -594,15 +606,22 @@ def finding_key(key, c):
     return k[:90]
 
 
-def report(ctx, exe, c, issue, timeout, seen, shrink=True):
+NEW_KEY_CAP = 10
+
+
+def report(ctx, exe, c, issue, timeout, seen, shrink=True, withheld=None):
     cls, key, text = issue
     fk = finding_key(key, c)
     if fk in seen:
         seen[fk] += 1
         return
     seen[fk] = 1
+    known = (ctx.prop, fk) in ctx.known
+    if not known and withheld is not None and len(ctx.violations) >= NEW_KEY_CAP:
+        withheld[fk] = dict(cls=cls, text=text[:600], case=case_to_json(c))           # never silent: counted and printed at the end
+        return
     small = c
-    if shrink and (ctx.prop, fk) not in ctx.known:
+    if shrink and not known:
         try:
             small = shrink_case(ctx, exe, c, key, timeout)
             a = analyse(ctx, exe, small, run_one(exe, small, timeout))
@@ -611,8 +630,35 @@ def report(ctx, exe, c, issue, timeout, seen, shrink=True):
             ctx.log("shrink failed:", str(e)[:200])
     names = {"a": "(a) crash / undefined behaviour / process exit / escaping exception", "b": "(b) return value does not match the recorded ERROR events",
              "c": "(c) error or warning text that does not describe this call", "d": "(d) state poisoned after the reload",
-             "model": "correspondence with Model/ErrAcct broken"}
+             "model": "correspondence with Model/ErrAcct broken", "hang": "the call does not return"}
     ctx.finding(fk, f"{names[cls]}: {text}", dict(case=case_to_json(small), issue_key=key, cls=cls, family=c["family"], tag=c["tag"]))
+
+
+# ------------------------------------------------------------------------------------------------ hangs
+
+def constant_rate_signature(c):
+    """RATES program whose SAVE expression does not involve TIME, used by a KINETICS block (known finding hang-kinetics-constant-rate)"""
+    for _, p in c["ops"]:
+        t = p if isinstance(p, bytes) else p.encode()
+        if t.decode("latin-1") in c["files"]:
+            t = c["files"][t.decode("latin-1")]
+        up = t.upper()
+        if b"RATES" in up and b"KINETICS" in up and b"SAVE" in up:
+            saves = re.findall(rb"SAVE[^\n]*", up)
+            if saves and not any(b"TIME" in x for x in saves) and not re.search(rb"=[^\n]*TIME", up):
+                return True
+    return False
+
+
+def judge_timeout(ctx, plain, c, timeout):
+    """a timeout alone cannot tell a hang from a slow run: re-run the case alone on the plain (3-5x faster) build"""
+    rec = run_one(plain, c, timeout)
+    if rec is None or rec["end"] is None or rec["end"]["status"] != "timeout":
+        return None
+    if constant_rate_signature(c):
+        return ("hang", "hang-kinetics-constant-rate", f"the call did not return within {timeout} s on the sanitizer build nor, re-run alone, on the plain build "
+                                                         "(RATES program whose SAVE does not depend on TIME)")
+    return None
 
 
 # ------------------------------------------------------------------------------------------------ entry points
@@ -621,23 +667,30 @@ def build(ctx):
     ctx.build_lib()
     ctx.build_lib("asan", cxxflags=ASAN_FLAGS)
     exe = ctx.build_harness("ph_fuzz", variant="asan", extra=ASAN_FLAGS.split() + ["-no-pie", "-ldl"])
-    return exe
+    plain = ctx.build_harness("ph_fuzz", extra=["-no-pie", "-ldl"])
+    return exe, plain
 
 
 def run(ctx):
+    tr = gen_erracct.generate(ctx)
+    LOAD_REFRESHES[0] = bool(tr["refresh"])
+    ctx.cov["translator"] = dict(shape_facts=len(tr["facts"]), shape_facts_false=[n for n, v in tr["facts"] if not v], load_refreshes_lines=tr["refresh"],
+                                 input_error_increment_sites=len(tr["sites"]), unpaired_sites=sum(1 for s_ in tr["sites"] if not s_["paired"]),
+                                 unpaired_outside_reading_phase=[f"{s_['file']}:{s_['line']} {s_['func']}" for s_ in tr["sites"] if not s_["paired"] and not s_["reading"]])
     ok = ctx.prove(["PhreeqcVerif.Properties.C08"])
-    exe = build(ctx)
-    timeout = ctx.n(20, 40)
-    n = ctx.n(420, 30000)
+    exe, plain = build(ctx)
+    timeout = ctx.n(20, 30)
+    n = ctx.n(420, 16000)
     if not ok:
         n = max(n, 3000)
     seeds = F.seeds()
     cases = corpus_cases() + [gen_case(ctx.rng, seeds) for _ in range(n)]
     ctx.log(f"{len(cases)} cases ({len(seeds)} seed inputs), ASan+UBSan harness {exe.name}")
-    fam, status, cls_count, seen = {}, {}, {}, {}
+    fam, status, cls_count, seen, withheld = {}, {}, {}, {}, {}
     evals = nontrivial = 0
-    stats = dict(error_events=0, warning_events=0, calls_with_stop=0, nonzero_returns=0, zero_returns=0)
-    chunk = 480
+    stats = dict(error_events=0, warning_events=0, calls_with_stop=0, nonzero_returns=0, zero_returns=0, timeouts_rerun_on_plain_build=0, timeouts_confirmed_on_plain_build=0)
+    mut_kinds = {}
+    chunk = 960
     for base in range(0, len(cases), chunk):
         part = cases[base:base + chunk]
         recs = run_cases(exe, part, timeout)
@@ -647,6 +700,9 @@ def run(ctx):
             fam.setdefault(c["family"], {}).setdefault(a["status"].split(":")[0], 0)
             fam[c["family"]][a["status"].split(":")[0]] += 1
             status[a["status"]] = status.get(a["status"], 0) + 1
+            if c["family"] == "mutate":
+                for k in c["tag"].split(":", 1)[-1].split("+"):
+                    mut_kinds[k.split("/")[0]] = mut_kinds.get(k.split("/")[0], 0) + 1
             inf = a["info"]
             if a["status"] == "judged":
                 stats["error_events"] += inf.get("nerr", 0)
@@ -659,43 +715,61 @@ def run(ctx):
                 if len(ctx.cov["samples"]) < 3 and inf.get("nerr", 0) and c["family"] != "corpus":
                     ctx.sample(dict(family=c["family"], tag=c["tag"][:80], input=txt(c["ops"][0][1], 300), returns=inf["ret"], error_events=inf["nerr"],
                                     warning_events=inf["nwarn"]))
+            elif a["status"] == "notjudged:timeout" and (stats["timeouts_rerun_on_plain_build"] < ctx.n(6, 60) or c["family"] == "corpus"):
+                stats["timeouts_rerun_on_plain_build"] += 1
+                iss = judge_timeout(ctx, plain, c, c.get("timeout") or timeout)
+                if iss:
+                    stats["timeouts_confirmed_on_plain_build"] += 1
+                    a["issues"].append(iss)
             for iss in a["issues"]:
                 cls_count[iss[0]] = cls_count.get(iss[0], 0) + 1
-                report(ctx, exe, c, iss, timeout, seen)
-        ctx.log(f"{evals}/{len(cases)} cases, {len(seen)} distinct issue keys, {len(ctx.violations)} violations")
-        if len(ctx.violations) >= 12:
-            ctx.log("stopping the exploration: 12 distinct violations recorded")
-            break
+                report(ctx, exe, c, iss, timeout, seen, withheld=withheld)
+        ctx.log(f"{evals}/{len(cases)} cases, {len(seen)} distinct issue keys, {len(ctx.violations)} violations, {len(withheld)} withheld")
+    if withheld:
+        print(f"C08: {len(withheld)} further distinct new issue keys withheld after the first {NEW_KEY_CAP} violations (listed in evidence/C08.json): "
+              + ", ".join(sorted(withheld)[:12]), flush=True)
     ctx.cov["evaluations"] = evals
     ctx.cov["distinct_nontrivial"] = nontrivial
     ctx.cov["family_outcomes"] = fam
+    ctx.cov["mutation_kinds"] = mut_kinds
     ctx.cov["outcomes"] = status
     ctx.cov["event_statistics"] = stats
     ctx.cov["issue_classes"] = cls_count
     ctx.cov["issue_keys"] = seen
+    ctx.cov["withheld_new_issue_keys"] = {k: dict(cls=v["cls"], text=v["text"], input=v["case"].get("input_text", [""])[0][:600]) for k, v in withheld.items()}
     ctx.cov["vocabulary"] = dict(keywords=len(F.KEYWORDS), readers_with_option_lists=len(F.OPTS), options=len(F.ALL_OPTS), basic_tokens=len(F.BASIC_WORDS),
                                  seeds=len(seeds), excluded_basic_tokens=sorted(F.EXCLUDED_BASIC))
     ctx.cov["rule"] = ("every case = new process (fork) on the ASan+UBSan build: LoadDatabase(base) [+ one successful call with warnings in 25 %] + judged call(s) "
-                       "+ LoadDatabase(base) + probe run vs a new instance. Families: mutate (shipped examples, gtest inputs, built-in blocks under 1-5 token/line/"
-                       "number/byte/structural mutations), grammar (blocks for every keyword with options taken from the reader's own option list: wrong, missing, "
+                       "+ GetComponentCount + LoadDatabase(base) + probe run vs a new instance. Families: mutate (shipped examples, gtest inputs, built-in blocks under 1-5 "
+                       "token/line/number/byte/structural mutations), grammar (blocks for every keyword with options taken from the reader's own option list: wrong, missing, "
                        "duplicated, prefix, foreign, extreme values), basic (malformed/truncated BASIC in RATES/USER_PUNCH/USER_PRINT/CALCULATE_VALUES/USER_GRAPH), "
                        "entities (unknown names, undefined numbers), extreme (1e308, nan, inf, huge integers, long tokens/lines), bytes (NUL-free arbitrary bytes), "
                        "database (the same on database text via LoadDatabaseString/LoadDatabase), files (missing/directory/odd paths, unwritable output names, "
                        "INCLUDE$). Entry point RunString 70 % / RunFile 15 % / AccumulateLine+RunAccumulated 15 %. non-trivial = judged cases with at least one "
-                       "ERROR or WARNING event. Not judged: timeouts, allocator limits of the sanitizer, cases whose history call failed.")
+                       "ERROR or WARNING event. Not judged: timeouts (re-run alone on the plain build; only the listed constant-rate signature is routed), allocator "
+                       "limits of the sanitizer, cases whose history call failed.")
     ctx.level = "proof+exploration"
     ctx.assumptions.append("crash-freedom, absence of undefined behaviour and reload-equivalence of the engine are sanitizer-backed exploration (layer N), not theorems")
     if not ok and not ctx.violations:
-        ctx.violation("proof obligation of C08 no longer checks and no failing input was found", {"broken": ctx.proof_broken}, found_input=False)
+        ctx.violation("proof obligation of C08 no longer checks and no failing input was found", {"broken": ctx.proof_broken, "translator": ctx.cov["translator"]},
+                      found_input=False)
 
 
 def replay(ctx, data):
-    exe = build(ctx)
+    tr = gen_erracct.generate(ctx)
+    LOAD_REFRESHES[0] = bool(tr["refresh"])
+    exe, plain = build(ctx)
     if "case" not in data:
         return run(ctx)
+    if not ctx.pmodel_path().exists():
+        ctx.lake_build(["pmodel"])
     c = case_from_json(data["case"])
     rec = run_one(exe, c, 60)
     a = analyse(ctx, exe, c, rec)
+    if a["status"] == "notjudged:timeout":
+        iss = judge_timeout(ctx, plain, c, c.get("timeout") or 30)
+        if iss:
+            a["issues"].append(iss)
     print("replay:", a["status"], [(cl, k, t[:300]) for cl, k, t in a["issues"]])
     if rec and rec["end"]:
         print("process:", rec["end"]["status"], rec["end"]["code"])
@@ -706,8 +780,26 @@ def replay(ctx, data):
 
 
 MANIFEST = dict(
-    technique="Lean 4 state machine of one API call's error accounting over the PHRQ_io event stream (theorems for all event traces) + "
-              "sanitizer-backed fuzzing of the real library in forked children, strings/return values compared with the model, reload compared with a new instance",
-    text="see module docstring",
-    note="see module docstring",
+    technique="Lean 4 state machine of one API call's error accounting over the PHRQ_io event stream (theorems for all programs of engine steps, all "
+              "histories), tied to the source by a translator (code-shape facts + every input_error++ site, decide over the generated table) and by "
+              "trace correspondence; sanitizer-backed fuzzing of the real library in forked children (layer N) for crash-freedom and the reload",
+    text="Theorems (Properties/C08.lean over Model/ErrAcct.lean, all programs = any number of simulations of arbitrary reading steps + tidy_model gate + running "
+         "steps, all wrapper states and switch settings): retval_nonzero_iff_error, load_retval_nonzero_iff_error, retval_nonzero_of_error_any_steps (+ witness "
+         "bump_without_gate_breaks_converse), errors_this_call_only, run_strings_independent_of_history, load_errors_this_call_only, load_lines_this_call_only "
+         "(current source: load_db refreshes the lines) / load_lines_this_call_only_partial + witness failed_load_keeps_stale_lines (source without that call), "
+         "stop_unwinds_to_api, steps_after_stop_have_no_effect, run_stop_is_last, load_result_independent_of_wrapper, failed_then_load_fresh, "
+         "failed_then_load_then_calls_eq_fresh. Obligations over Gen/ErrAcct.lean (regenerated every run): shape_facts_hold (24 facts about get_input_errors, the "
+         "three error_msg layers, read_input's reset, tidy_model's gate, Run*/LoadDatabase order, check_database, update_errors, UnLoadDatabase), "
+         "bumps_paired_or_reading (533 input_error++ sites: next to an error_msg, or in a reading-phase function, or reviewed). Correspondence per fuzz case: "
+         "recorded ERROR/WARNING events -> pmodel route (errStrChunks/warnStrChunks/errCount/splitLines) vs GetErrorString/GetWarningString/line accessors, "
+         "return value vs ERROR events, events after a STOP event, phase rule of LoadDatabase. Exploration (layer N, not proof): forked children on an "
+         "ASan+UBSan build, exit/_exit/abort interposed, exceptions caught at the API boundary with the throw site recorded, GetComponentCount after every "
+         "call, reload + probe vs a new instance.",
+    note="Trusted: gen_erracct.py (regex on comment-stripped function bodies; fails closed to `false`), harness/ph_fuzz.cpp (own PHRQ_io subclass, fork/pipe protocol, "
+         "interposed exit functions, __cxa_throw hook), pmodel route (Driver/Route.lean) as evaluator of the Route functions, the comparison in props/c08.py; byte "
+         "strings cross to the Lean driver through a latin-1 bijection. Partial: crash-freedom, no-UB, no-exit, no-escaping-exception and the engine half of the "
+         "reload are sanitizer-backed exploration, not theorems; the typing of the running phase (no bare input_error++) rests on the site table plus one reviewed "
+         "exception (print_mix); timeouts are counted, re-run alone on the plain build, and only the listed constant-rate KINETICS signature is routed; "
+         "allocation limits of the sanitizer allocator are not judged; leaks are not judged (not in the statement). BASIC tokens PEEK/POKE are excluded from "
+         "generated programs (known finding basic-peek-poke, reproduced from the corpus on every run).",
 )
